@@ -168,6 +168,13 @@ def gen_ordering_fault(rng, tree, nodes):
                 c.append((path, '_all', 'zz, /', 'arguments', 'extend'))
         if isinstance(node, ast.MatchMapping) and node.rest:
             c.append((path, '_all', '"k": zz', 'pattern', 'append'))
+        if isinstance(node, ast.MatchMapping) and (node.keys or node.rest):
+            # a slice that carries its own **rest, put anywhere but at the end
+            c.append((path, '_all', '{3: zz, **zq}', 'pattern', 'insert0'))
+            c.append((path, '_all', '{3: zz, **zq}', 'pattern', 'replace01'))
+        if isinstance(node, ast.arguments) and not isinstance(parent, ast.Lambda) and (node.args or node.kwonlyargs or node.vararg):
+            c.append((path, '_all', '**zz', 'arguments', 'insert0'))
+            c.append((path, '_all', '*zz, zy', 'arguments', 'insert0'))
         if isinstance(node, ast.ImportFrom):
             c.append((path, 'names', '*', 'alias_from', 'append'))
             if any(a.name == '*' for a in node.names):
@@ -191,6 +198,8 @@ def gen_ordering_fault(rng, tree, nodes):
           'code': {'form': rng.choice(['src', 'src', 'fst']), 'cat': cat, 'text': text}}
     if k == 'insert0':
         op.update(k=rng.choice(['insert', 'put_slice']), idx=0, start=0, stop=0, one=rng.choice([True, False]))
+    if k == 'replace01':
+        op.update(k='put_slice', start=0, stop=1, one=False)
     return op
 
 
